@@ -34,7 +34,6 @@ func c01Opts(thorough bool) []c01Opt {
 	if thorough {
 		o = append(o,
 			c01Opt{name: "rfull", sh: full, enc: c01EncRun},
-			c01Opt{name: "b[0..65534]", sh: c01MakeShape("[0..65534]", c01Seq(65535, func(i int) int { return i })), enc: c01EncBitmap},
 		)
 	}
 	return o
